@@ -165,11 +165,11 @@ def rule_all_outputs(ctx: Ctx) -> None:
     P = ctx.prog
     ms, asp = P.cls(f"{MOD}.MapSpec"), P.cls(f"{MOD}.ArraySpec")
     post = ms.methods["__post_init__"]
-    rej = [r for r in rejections(ctx.cfg(post), post.node, Defs(post)) if not r["dead"]]
+    rej = reach_rejections(ctx, post)
     # ':' in outputs
-    none_rej = [r for r in rej if any(re.fullmatch(r"\w+ is None", c) for c in r["conds"][-1:])]
+    none_rej = [r for r in rej if any(re.fullmatch(r"\w+ is None|None in [\w.\[\]]+\.axes", c) for c in r["conds"][-1:])]
     whole = [r for r in none_rej if any(norm(i) == "self.outputs" for _t, i in r["iters"])]
-    first_only = [r for r in none_rej if any("self.outputs[0]" in norm(i) for _t, i in r["iters"])]
+    first_only = [r for r in none_rej if any("self.outputs[0]" in norm(i) for _t, i in r["iters"]) or any("self.outputs[0]" in c for c in r["conds"][-1:])]
     ctx.tri("3-all-outputs", post, (first_only or whole or [{"node": post.node}])[0]["node"], bool(whole), bool(first_only) and not whole or not none_rej,
             "':' is rejected in every output", "':' (None axis) is only rejected in the first output" if first_only else "':' (None axis) in an output is not rejected", key="none-in-outputs")
     same = [r for r in rej if any(".indices" in c and ("!=" in c) for c in r["conds"][-1:])]
